@@ -46,6 +46,7 @@ PROBES = (
     "query_with_timepoint_bounds",
     "explicit_empty_point",
     "views_crosscheck",
+    "caller_defined_subclass",
 )
 
 CLASSES = [
@@ -77,10 +78,26 @@ TMAX = 15
 QS = (1, 2, 3, 4, 6, 8, 12)
 
 
-def _mk(clsname, i):
+USER_BASES = ("Note", "Rest", "Words", "LoudnessDirection", "Measure", "Fermata")
+
+
+def base_name(clsname):
+    """pool entries "User:<Base>" stand for a subclass of <Base> the caller defines himself - at the moment he first
+    needs it, i.e. possibly after the part has been queried"""
+    return clsname[5:] if clsname.startswith("User:") else clsname
+
+
+def _mk(clsname, i, user_classes=None):
     import partitura.score as S
 
-    c = getattr(S, clsname)
+    c = getattr(S, base_name(clsname))
+    if clsname.startswith("User:"):
+        if user_classes is None:
+            user_classes = {}
+        if clsname not in user_classes:
+            user_classes[clsname] = type("Caller" + base_name(clsname), (c,), {})
+        c = user_classes[clsname]
+        clsname = base_name(clsname)
     if clsname in ("Note",):
         return c("C", 4, 0, id="o%d" % i, voice=1, staff=1 + i % 2)
     if clsname == "GraceNote":
@@ -115,6 +132,9 @@ def generate(seed, tier, cfg):
     k = st.knobs
     npool = k.choice((3, 5, 8, 12))
     pool = [st.workload.choice(CLASSES) for _ in range(npool)]
+    if k.random() < 0.3:
+        for _ in range(k.choice((1, 2))):
+            pool[st.workload.randrange(npool)] = "User:" + st.workload.choice(USER_BASES)
     # bias towards a small time range so boundaries are hit constantly
     tmax = k.choice((3, 6, 10, TMAX))
     nops = k.choice((6, 12, 20, 30, 40))
@@ -248,7 +268,10 @@ class RefTimeline(object):
         if clsname is None:
             return True
         c = getattr(S, clsname)
-        oc = getattr(S, self.pool[i])
+        oc = getattr(S, base_name(self.pool[i]))
+        if self.pool[i].startswith("User:"):
+            # an object of a caller-defined subclass: found through its bases, never by an exact-class query for a base
+            return issubclass(oc, c) if sub else False
         return issubclass(oc, c) if sub else oc is c
 
 
@@ -264,8 +287,9 @@ class World(object):
         self.case = case
         self.res = res
         self.part = S.Part("P0", quarter_duration=case["q0"])
-        self.objs = [_mk(c, i) for i, c in enumerate(case["pool"])]
-        self.idx = {id(o): i for i, o in enumerate(self.objs)}
+        self.user_classes = {}
+        self.objs = [None if c.startswith("User:") else _mk(c, i) for i, c in enumerate(case["pool"])]
+        self.idx = {id(o): i for i, o in enumerate(self.objs) if o is not None}
         self.m = RefTimeline(case["q0"], case["pool"])
         self.upto = TMAX + 6
         self.removed = False
@@ -273,6 +297,14 @@ class World(object):
         self.reader_overlap = False
 
     # ---- helpers
+    def obj(self, i):
+        if self.objs[i] is None:
+            # the caller defines his class now
+            self.res.probe("caller_defined_subclass")
+            self.objs[i] = _mk(self.case["pool"][i], i, self.user_classes)
+            self.idx[id(self.objs[i])] = i
+        return self.objs[i]
+
     def oi(self, o):
         return self.idx.get(id(o), -1)
 
@@ -393,6 +425,8 @@ class World(object):
                     res.violation("I4-registry", op, "point t=%s lists %s objects %s, model %s" % (p.t, side, sorted(got), sorted(exp)))
                     return
         for i, o in enumerate(self.objs):
+            if o is None:
+                continue
             ms, me = m.obj[i]
             for side, tp, mt, acc in (("start", o.start, ms, listed_s), ("end", o.end, me, listed_e)):
                 if mt is None:
@@ -475,7 +509,7 @@ class World(object):
                     return "skip"
                 if s is not None and s == e:
                     res.probe("add_equal_start_end")
-                part.add(self.objs[i], s, e)
+                part.add(self.obj(i), s, e)
                 if s is not None:
                     m.starts.setdefault(s, []).append(i)
                     m.obj[i][0] = s
@@ -516,7 +550,7 @@ class World(object):
                     self.removed = True
                     m.version += 1
                 name = "rm:" + ("noop" if not hit else "+".join(sorted(tags - ({"interior"} if len(tags) > 1 else set()))) or "kept-point")
-                part.remove(self.objs[i], w)
+                part.remove(self.obj(i), w)
                 outcome = [i, w, hit]
             elif k == "setq":
                 t, q = op["t"], op["q"]
@@ -552,15 +586,15 @@ class World(object):
                     if what == "add_neg_start":
                         if ms is not None:
                             return "skip"
-                        part.add(self.objs[i], -1 - op["t"] % 3, None)
+                        part.add(self.obj(i), -1 - op["t"] % 3, None)
                     elif what == "add_neg_end":
                         if ms is not None or me is not None:
                             return "skip"
-                        part.add(self.objs[i], op["t"], -1)
+                        part.add(self.obj(i), op["t"], -1)
                     elif what == "add_both_neg":
                         if ms is not None or me is not None:
                             return "skip"
-                        part.add(self.objs[i], -2, -1)
+                        part.add(self.obj(i), -2, -1)
                     elif what == "get_point_neg":
                         part.get_point(-1)
                     else:
@@ -633,7 +667,7 @@ class World(object):
         for i, (ms, me) in m.obj.items():
             if ms is None:
                 continue
-            o = self.objs[i]
+            o = self.obj(i)
             if isinstance(o, (S.GenericNote, S.Clef, S.Direction, S.Words)) and getattr(o, "staff", None):
                 exp = max(exp, o.staff)
         got = part.number_of_staves
@@ -651,7 +685,7 @@ class World(object):
             ms, me = m.obj[i]
             if ms is None and me is None:
                 continue
-            fresh.add(_mk(self.case["pool"][i], i), ms, me)
+            fresh.add(_mk(self.case["pool"][i], i, self.user_classes), ms, me)
             if ms is not None:
                 same_start.setdefault((self.case["pool"][i], ms), []).append(i)
         for t in sorted(m.explicit):
